@@ -245,7 +245,32 @@ def bounded(tier, seed):
             violation(viol, 'rejects', 'set_request_uri(%r): %s' % (u, outcome),
                       'import aiocoap\nfrom aiocoap import error\ntry:\n    aiocoap.Message(code=aiocoap.GET).set_request_uri(%r)\n    print("accepted")\n    sys.exit(%d)\n'
                       'except (error.MalformedUrlError, error.IncompleteUrlError) as e:\n    print(type(e).__name__)\n    sys.exit(0)\nexcept Exception as e:\n    print("other", type(e).__name__, e)\n    sys.exit(1)' % (u, 1 if u in bad else 0))
-    out.append({'name': 'C16/rejects-non-uris-with-url-errors-only', 'tool': 'bounded enumeration (native)', 'bound': '%d listed malformed URIs + all strings of up to %d tokens from %d' % (len(bad), 4 if tier == 'thorough' else 3, len(toks)),
+    # structured authorities: every host form with every port form; a non-numeric or out-of-range port is rejected whatever the host looks like,
+    # and no authority makes anything but the URL errors escape
+    hosts_ok = ['host', 'EXAMPLE.com', '10.0.0.1', '[::1]', '[2001:db8::1]', '[fe80::1%eth0]', '[::ffff:1.2.3.4]']
+    hosts_odd = ['[v1.x]', '[::zz]', '[]', '[1.2.3.4]', '[::1', '::1]', '[[::1]', '1.2.3.999', 'h%FFst', '[::1%25eth0]']
+    ports_bad = [':abc', ':-1', ':99999', ':65536', ':1x', ': 1', ':\u0661\u0662', ':+1', ':1_0', ':0x10']
+    ports_ok = ['', ':', ':0', ':5683', ':65535']
+    n_auth = 0
+    for sch, h, p, rest in itertools.product(['coap', 'coap+tcp'], hosts_ok + hosts_odd, ports_bad + ports_ok, ['', '/', '/x?y']):
+        u = '%s://%s%s%s' % (sch, h, p, rest)
+        n += 1
+        n_auth += 1
+        must_reject = h in hosts_ok and p in ports_bad
+        try:
+            decompose(u)
+            outcome = 'accepted'
+        except (error.MalformedUrlError, error.IncompleteUrlError) as e:
+            outcome = type(e).__name__
+        except Exception as e:
+            outcome = 'OTHER ' + type(e).__name__
+        if must_reject and h.startswith('[') and len(samples) < 9:
+            samples.append({'text': u, 'outcome': outcome})
+        if outcome.startswith('OTHER') or (must_reject and outcome == 'accepted'):
+            violation(viol, 'rejects', 'set_request_uri(%r): %s' % (u, outcome),
+                      'import aiocoap\nfrom aiocoap import error\ntry:\n    aiocoap.Message(code=aiocoap.GET).set_request_uri(%r)\n    print("accepted")\n    sys.exit(%d)\n'
+                      'except (error.MalformedUrlError, error.IncompleteUrlError) as e:\n    print(type(e).__name__)\n    sys.exit(0)\nexcept Exception as e:\n    print("other", type(e).__name__, e)\n    sys.exit(1)' % (u, 1 if must_reject else 0))
+    out.append({'name': 'C16/rejects-non-uris-with-url-errors-only', 'tool': 'bounded enumeration (native)', 'bound': '%d listed malformed URIs + all strings of up to %d tokens from %d + %d authorities (2 schemes x %d host forms x %d port forms x 3 tails)' % (len(bad), 4 if tier == 'thorough' else 3, len(toks), n_auth, len(hosts_ok + hosts_odd), len(ports_bad + ports_ok)),
                 'inputs_tried': n, 'samples': samples, 'violations': viol, 'counted_as_proved': False})
 
     # ---- 5. host/port join and split
